@@ -31,6 +31,18 @@ fn numerals() -> Vec<String> {
     above.replace_range(0..1, "2");
     v.push(above);
     v.push("179769313486231580793728971405303415079934132710037826936173778980444968292764750946649017977587207096330286416692887910946555547851940402630657488671505820681908902000708383676273854845817711531764475730270069855571366959622842914819860834936475292719074168444365510704342711559699508093042880177904174497792".to_string());
+    // whole numbers around 2^53 and 2^63..2^64, and a fixed grid of fractional numerals with
+    // 16-19 significant digits (more than a double holds: parsing and listing must still agree)
+    for s in ["9007199254740993", "9223372036854775807", "9223372036854775808", "10000000000000000000", "18446744073709551615", "18446744073709551616", "2.1234567890471892", "3.141592653589793238", "0.1234567890123456789"] {
+        v.push(s.to_string());
+    }
+    let mut x: u64 = 12345;
+    for _ in 0..400 {
+        x = x.wrapping_mul(6364136223846793005).wrapping_add(1442695040888963407);
+        let digits = format!("{:019}", x % 10_000_000_000_000_000_000u64);
+        let int_len = 1 + (x >> 61) as usize % 3;
+        v.push(format!("{}.{}", &digits[..int_len], &digits[int_len..17 + (x >> 59) as usize % 3]));
+    }
     v
 }
 
